@@ -26,7 +26,7 @@ CONSTS = """  Names <- %(P)sNames
 """
 MC = "SPECIFICATION Spec\nCONSTANTS\n" + CONSTS + """  EncAlphabet = {97, 38, 34, 60, 62, 39, 10, 13, 93, 59, 35}
   EncLen = %(el)d
-INVARIANTS TypeOK OneFilePerGroup SuiteCountsTrue CasesFaithful OutputFaithful WellFormedRoundTrip FileNamesOK BookkeepingOK
+INVARIANTS TypeOK OneFilePerGroup NoOverwrite LastContentFaithful SuiteCountsTrue CasesFaithful OutputFaithful WellFormedRoundTrip FileNamesOK BookkeepingOK
 CHECK_DEADLOCK FALSE
 """
 GEN = "SPECIFICATION GSpec\nCONSTANTS\n" + CONSTS + """  D = %(D)d
@@ -96,23 +96,30 @@ def long_exec(rng):
     return ex
 
 
-def random_exec(rng, max_groups, max_tests):
+def random_exec(rng, max_groups, max_tests, filtered=0.0):
+    """filtered = share of the tests that a name filter keeps from running (names containing 'z': the harness installs the
+    filter "everything but z"; rstr never produces a z); with a filter, about a quarter of the groups have no running test"""
     pkg = [] if rng.random() < 0.4 else rstr(rng, 1, 8, extra=FNAME_ILLEGAL)
     ex = [["start", hx(pkg), "", "", 0, rng.choice(["0", "0", "1"])]]
     run_ignored = ex[0][5] == "1"
-    last = None
+    used = set()
     for _ in range(rng.randint(0, max_groups)):
         g = rstr(rng, 1, 10, extra=FNAME_ILLEGAL)
-        if g == last:
+        while bytes(g) in used:                          # one group = one run of consecutive tests (hypothesis of the property)
             g = g + [103]
-        last = g
+        used.add(bytes(g))
         ex.append(["group", hx(g), "", "", 0, ""])
         files = [rstr(rng, 1, 14, extra=[47, 46]) for _ in range(2)]
+        pskip = 0.0 if not filtered else (1.0 if rng.random() < 0.25 else filtered)
         for _ in range(rng.randint(1, max_tests)):
             name = rstr(rng, 1, 10)
             tfile = rng.choice(files)
             tline = rng.choice([0, 1, 7, 70, 1234, 99999])
             kind = "i" if rng.random() < 0.25 else "n"
+            if rng.random() < pskip:
+                name.insert(rng.randint(0, len(name)), 122)
+                ex.append(["skip", hx(name), hx(tfile), "", tline, kind])
+                continue
             ex.append(["test", hx(name), hx(tfile), "", tline, kind])
             if kind == "n" or run_ignored:
                 for _ in range(rng.choice([0, 0, 1, 1, 2, 3])):
@@ -129,7 +136,7 @@ def random_exec(rng, max_groups, max_tests):
 
 def nontrivial(ex):
     for l in ex:
-        if l[0] == "fail" or l[0] == "print" or (l[0] == "test" and l[5] == "i"):
+        if l[0] in ("fail", "print", "skip") or (l[0] == "test" and l[5] == "i"):
             return True
         if l[0] in ("group", "test", "start") and set(XML_SPECIALS + FNAME_ILLEGAL) & set(bytes.fromhex(l[1])):
             return True
@@ -153,6 +160,12 @@ def key_fn(kind, ex, idx, observed):
                 attrs.append(bytes.fromhex(l[1]))
         special = any(ATTR_BREAKERS & set(v) for v in attrs)
         doc = (observed or {}).get("doc") or {}
+        if not tests:                                    # a group none of whose tests ran (all filtered out)
+            if (observed or {}).get("nfiles", 0) > 1:
+                return "reject:endgroup:group-without-running-test:several-files"
+            if not doc.get("wellformed") or not doc.get("closed"):
+                return "reject:endgroup:group-without-running-test:ill-formed-xml"
+            return "reject:endgroup:group-without-running-test:written-to-the-file-of-a-group-that-ran"
         if not doc.get("wellformed"):
             return "reject:endgroup:ill-formed-xml" + (":name-or-path-with-xml-special-in-attribute" if special else "")
         cases = doc.get("cases", [])
@@ -236,7 +249,7 @@ def run(ctx):
 
     # ---- leg 3: seeded random runs of up to 30 groups, every printable character, XML specials dense in every string
     nexec, mg, mt = (40, 10, 4) if quick else (200, 30, 6)
-    execs = [random_exec(ctx.rng, mg, mt) for _ in range(nexec)]
+    execs = [random_exec(ctx.rng, mg, mt, filtered=0.0 if i % 2 else 0.3) for i in range(nexec)]
     ctx.sample({"source": "seeded random driver", "execution": ["\t".join(map(str, l)) for l in execs[0][:14]]})
     conform(ctx, "random", execs, run_harness, "Trace_JUnit", tcfg, pcfg, key_fn, tlc_timeout=1500)
     # long values (see the same leg of C20: buffering / truncation defects need values longer than any the small alphabets produce)
@@ -254,7 +267,9 @@ def run(ctx):
              "seams is parsed by expat (tools/junit_project.py) and the per-callback log is validated by TLC; distinct = distinct scripts; "
              "non-trivial = has a failure, printed text, an ignored test, or a name with an XML-special or file-name-illegal character",
         distinct_nontrivial=len(nontriv), exhaustive=False,
-        assumptions=["tests of a group are consecutive and no filters are set (as in the property statement)",
+        assumptions=["tests of a group are consecutive and group names are not reused later in the run (as in the property statement)",
+                     "with a name filter set, `the tests of the group' are the tests that ran; for a group none of whose tests ran nothing is asked "
+                     "except that whatever is written stays well-formed and does not go to the file of a group that ran earlier",
                      "names, paths and texts are byte strings over printable ASCII plus CR and LF (no TAB, no other control characters); names are non-empty",
                      "the captured output of a file may be the text printed during its group or during the run so far (the statement does not say which)",
                      "the failure element must carry the message of one of the test's failures (the reporter keeps the first); its location prefix is not checked",
